@@ -58,6 +58,11 @@ fam("at_binding_guard", "quick", [arg_u8("a")], "(n @ 1..=9) if *n % 2 == 0", "m
 fam("zero_arity_guard", "quick", [], "() if OPEN.load(core::sync::atomic::Ordering::SeqCst)", "open",
     pre=["let open: bool = kani::any();", "OPEN.store(open, core::sync::atomic::Ordering::SeqCst);"])
 fam("bare_ident_paths", "quick", [arg_opt("a"), arg_en("b")], "None, B", "matches!((a, &b), (None, En::B))", ["None", "En::B"])
+# a user binding that is called like a macro-generated local (hygiene), eq! between different types whose two PartialEq
+# directions differ (the comparison is `argument == operand`), an or-pattern of struct patterns that render alike
+fam("binding_named_like_a_generated_local", "quick", [arg_u8("a"), arg_u8("b")], "(l0, eq!(&5)) if *l0 > 3", "a > 3 && b == 5")
+fam("eq_across_types", "quick", [("Ver", "let a = Ver(kani::any());", "a"), arg_u8("b")], "eq!(&AtLeast(3)), _", "a.0 >= 3")
+fam("struct_or_pattern", "quick", [arg_pt("a")], "Pt { x: 0, .. } | Pt { y: 0, .. }", "matches!(&a, Pt { x: 0, .. } | Pt { y: 0, .. })", ["Pt { x: 0, .. } | Pt { y: 0, .. }"])
 fam("at_binding", "thorough", [arg_u8("a")], "n @ 1..=9", "matches!(a, 1..=9)", ["n @ 1..=9"])
 fam("newtype_str", "thorough", [arg_name("a")], '"ab"', 'a.0 == "ab"', ['"ab"'])
 fam("enum_struct_variant", "thorough", [arg_en("a"), arg_u8("b")], "En::C { x: 3..=4 }, 0", "matches!((&a, b), (En::C { x: 3..=4 }, 0))", ["En::C { x: 3..=4 }", "0"])
@@ -83,6 +88,20 @@ pub enum En {
 #[allow(unused_imports)]
 use self::En::B;
 pub static OPEN: core::sync::atomic::AtomicBool = core::sync::atomic::AtomicBool::new(false);
+#[derive(Debug, Clone)]
+pub struct Ver(pub u8);
+#[derive(Debug, Clone)]
+pub struct AtLeast(pub u8);
+impl PartialEq<AtLeast> for Ver {
+    fn eq(&self, other: &AtLeast) -> bool {
+        self.0 >= other.0
+    }
+}
+impl PartialEq<Ver> for AtLeast {
+    fn eq(&self, other: &Ver) -> bool {
+        self.0 == other.0
+    }
+}
 #[derive(Debug, Clone, PartialEq)]
 pub struct Name(pub &'static str);
 impl AsRef<str> for Name {
@@ -119,7 +138,7 @@ def emit(e):
     # counterexample (DESIGN section 1).
     body = [f"let reference: bool = {ref};"]
     if e["subs"] is not None:
-        want = " | ".join(f"((!matches!({'&' + x if a[0] in ('Pt', 'En') else (x + '.0' if a[0] == 'Name' else x)}, {sp})) as u32) << {i}" for i, (x, a, sp) in enumerate(zip(names, args, e["subs"]))) or "0"
+        want = " | ".join(f"((!matches!({'&' + x if a[0] in ('Pt', 'En', 'Ver') else (x + '.0' if a[0] == 'Name' else x)}, {sp})) as u32) << {i}" for i, (x, a, sp) in enumerate(zip(names, args, e["subs"]))) or "0"
         body += [f"let rejecting: u32 = {want};"]
     body += [f"let inputs = {inputs};",
             f"let m: &dyn Fn(&mut umk::private::Matching<M_{n}::f>) = matching!({e['pat']});",
@@ -134,6 +153,8 @@ def emit(e):
              "core::mem::forget(inputs);"]
     fns = ",".join(["matching!", "render_success_arm", "render_guard", "generate_diagnostics_arm", "Matching::func", "MismatchReporter::pat_fail"])
     props = "C06,C19" if e["subs"] is not None else "C06"
+    if n in ("alternatives_with_guard", "guard_over_bindings", "zero_arity_guard"):
+        props += ",C01"      # C01's "a pattern accepts" is this predicate: guards are part of it
     ann = f'    //@ props={props} tier={e["tier"]} fns={fns} inst="matching!({e["pat"]}) over ({", ".join(a[0] for a in args)})" bounds="all argument values (integers full range; strings from a 3-4 literal pool; slices of length <= 3); diagnostics off and on"'
     h = f'''{trait}
 {ann}
